@@ -87,6 +87,16 @@ static void make_gt(tsnpd_net *g, char letter, int ports, int nfreq,
 			  (r == 1 && c == 1) ? 50.0 : 1.0; break;
 		default: break;
 		}
+		/* values with special angles: an exactly real positive and
+		   negative entry, an exactly imaginary pair (angles 0, 180,
+		   +90, -90 in the polar encodings) */
+		if (f == 0 && rr == 0 && cc == 0)
+		    v = 0.5;
+		else if (f == 0 && rr == ports - 1 && cc == ports - 1)
+		    v = -0.25;
+		else if (f == 0 && ports >= 2 && ((rr == 0 && cc == 1) ||
+			    (rr == 1 && cc == 0)))
+		    v = (sym || c > r) ? 0.375 * I : -0.375 * I;
 		g->data[f][r * ports + c] = v * sc;
 	    }
 	}
